@@ -168,18 +168,18 @@ def unitDir (n j : Nat) : List K := (List.range n).map (fun k => if k = j then 1
 
 /-- Directional derivative of a method's fresh table along `dirs`, by evaluating the same
 definitions on dual numbers. -/
-def dualDir (m : Method) (eps : K) (ds : List (Nat × (Nat → K))) (tbl : List Nat → K) (xs dirs : List K) : K :=
-  (evalND (m.kernel (Dual.const eps)) (liftDims ds) (fun is => Dual.const (tbl is)) (seed xs dirs)).du
+def dualDir (m : Method) (fix : Bool) (eps : K) (ds : List (Nat × (Nat → K))) (tbl : List Nat → K) (xs dirs : List K) : K :=
+  (evalND (m.kernel fix (Dual.const eps)) (liftDims ds) (fun is => Dual.const (tbl is)) (seed xs dirs)).du
 
 /-- ∂value/∂x_j. -/
-def dualDx (m : Method) (eps : K) (ds : List (Nat × (Nat → K))) (tbl : List Nat → K) (xs : List K)
+def dualDx (m : Method) (fix : Bool) (eps : K) (ds : List (Nat × (Nat → K))) (tbl : List Nat → K) (xs : List K)
     (j : Nat) : K :=
-  dualDir m eps ds tbl xs (unitDir xs.length j)
+  dualDir m fix eps ds tbl xs (unitDir xs.length j)
 
 /-- ∂value/∂tbl[e] (`e` a multi-index). -/
-def dualDv (m : Method) (eps : K) (ds : List (Nat × (Nat → K))) (tbl : List Nat → K) (xs : List K)
+def dualDv (m : Method) (fix : Bool) (eps : K) (ds : List (Nat × (Nat → K))) (tbl : List Nat → K) (xs : List K)
     (e : List Nat) : K :=
-  (evalND (m.kernel (Dual.const eps)) (liftDims ds)
+  (evalND (m.kernel fix (Dual.const eps)) (liftDims ds)
     (fun is => ⟨tbl is, if is = e then 1 else 0⟩) (xs.map Dual.const)).du
 
 end DualEval
